@@ -20,7 +20,11 @@
 //   header big=<K> tail=<m>  kind=pool: after everything else K further getNextLoop() calls (not recorded),
 //                     then m recorded ones: "tail <total calls before the first recorded one> r1 r2 ..."
 //   end
-// acts (separated by ';'):  q <t> | r <t> | quit | ev <k> | pt | start | destroy | -
+// acts (separated by ';'):  q <t> | r <t> | quit | ev <k> | ta <k> | pt | wx | start | destroy | -
+//   ta <k> = loop->runAfter(0, callback k): the timerfd is emulated by an eventfd that becomes readable when it is
+//            armed (timerfd_create / timerfd_settime interposed): a timer that is due fires without any real time passing;
+//   wx     = (kind=elt) wait until the loop thread's thread function has returned (sched::wait_exit: a blocking
+//            schedulable action, no pthread_join)
 // Output: "case <id>", scheduler lines (t/c/e/d, DEADLOCK, STEPLIMIT, schedule), "STUCK ..." when the
 // only way on is a poll time-out, "final ...", "end".  Every trace line carries the observers
 // q=<pendingFunctors_.size()> ev=<eventfd counter> quit= call= loop= it=<iteration_> (or "dead").
@@ -28,6 +32,8 @@
 #include <fcntl.h>
 #include <stdint.h>
 #include <stdio.h>
+#include <sys/eventfd.h>
+#include <sys/timerfd.h>
 #include <sys/wait.h>
 #include <unistd.h>
 #include <iostream>
@@ -82,6 +88,10 @@ static int g_foreign_total, g_foreign_done;
 static int g_joining;                   // the owner is inside ~EventLoopThread
 static int g_quit_calls, g_loop_returned;
 static EventLoopThread* g_elt;
+static EventLoopThreadPool* g_pool;             // kind=pool: observers per pool thread
+static std::vector<EventLoop*> g_pool_loops;    // loop of pool thread i (registered by its init callback)
+static std::vector<int> g_pool_wake, g_pool_ev, g_pool_alive;
+static bool g_pool_dtor;                        // ~EventLoopThreadPool has begun: threads_ must not be read any more
 static int g_child_idx = -1;
 static pid_t g_child_tid;
 
@@ -139,7 +149,13 @@ void __cyg_profile_func_exit(void* fn, void*)
 {
   if (!F_quit || t_inhook) return;
   if (fn == F_quit || fn == F_queue || fn == F_run || fn == F_loop) { if (t_depth > 0) --t_depth; return; }
-  if (fn == F_dtor) { g_loop_dead = true; g_loop = NULL; return; }
+  if (fn == F_dtor)
+  {
+    g_loop_dead = true; g_loop = NULL;
+    int me = sched::self();     // a pool loop is destroyed by its own thread T(i+1)
+    if (g_pool && me >= 1 && static_cast<size_t>(me - 1) < g_pool_alive.size()) g_pool_alive[static_cast<size_t>(me - 1)] = 0;
+    return;
+  }
   if (fn == F_tf && g_pts && sched::self() >= 0) { t_inhook = 1; sched::point("tf_exit"); t_inhook = 0; }
 }
 }
@@ -190,6 +206,31 @@ static void observe(string& line)
     snprintf(buf, sizeof buf, " dead");
   line += buf;
   if (g_elt) line += g_elt->loop_ != NULL ? " lp=1" : " lp=0";
+  if (g_pool)
+  {
+    // P<i>=q:ev:quit:call:loop:lp  or  P<i>=dead:lp  for every pool thread whose loop has been constructed
+    int fdnum = -1;
+    if (sscanf(obj, "f%d", &fdnum) == 1 && !strcmp(res, "8"))
+      for (size_t i = 0; i < g_pool_wake.size(); ++i)
+        if (g_pool_wake[i] == fdnum && g_pool_alive[i])
+        {
+          if (!strcmp(kind, "write")) ++g_pool_ev[i];
+          if (!strcmp(kind, "read")) g_pool_ev[i] = 0;
+        }
+    for (size_t i = 0; i < g_pool_loops.size(); ++i)
+    {
+      int lp = g_pool_dtor ? 9 : (i < g_pool->threads_.size() && g_pool->threads_[i]->loop_ != NULL);   // 9 = not observed
+      char pb[96];
+      if (g_pool_alive[i])
+      {
+        EventLoop* pl = g_pool_loops[i];
+        snprintf(pb, sizeof pb, " P%zu=%zu:%d:%d:%d:%d:%d", i, pl->pendingFunctors_.size(), g_pool_ev[i], static_cast<int>(pl->quit_),
+                 static_cast<int>(pl->callingPendingFunctors_), static_cast<int>(pl->looping_), lp);
+      }
+      else snprintf(pb, sizeof pb, " P%zu=dead:%d", i, lp);
+      line += pb;
+    }
+  }
   if (!strcmp(kind, "tmo") && !strcmp(obj, "poll"))
   {
     // nothing can run and the only way on is the poll time-out: report instead of "sleeping"
@@ -205,8 +246,46 @@ static void observe(string& line)
   }
 }
 
+// ------------------------------------------------------------------ timerfd emulation (no wall-clock dependence)
+extern "C" {
+int __real_timerfd_create(int, int);
+int __real_timerfd_settime(int, int, const struct itimerspec*, struct itimerspec*);
+ssize_t __real_write(int, const void*, size_t);
+ssize_t __real_read(int, void*, size_t);
+int __wrap_timerfd_create(int, int) NOINSTR;
+int __wrap_timerfd_settime(int, int, const struct itimerspec*, struct itimerspec*) NOINSTR;
+
+int __wrap_timerfd_create(int, int)
+{
+  return ::eventfd(0, EFD_NONBLOCK | EFD_CLOEXEC);   // read() returns 8 bytes like a timerfd
+}
+
+int __wrap_timerfd_settime(int fd, int, const struct itimerspec* nv, struct itimerspec* ov)
+{
+  if (ov) memset(ov, 0, sizeof *ov);
+  uint64_t v = 0;
+  ssize_t n = __real_read(fd, &v, sizeof v);   // disarm: forget an expiry that was not consumed
+  (void)n;
+  if (nv && (nv->it_value.tv_sec != 0 || nv->it_value.tv_nsec != 0))
+  {
+    v = 1;
+    n = __real_write(fd, &v, sizeof v);        // armed = due: the loop sees it at its next poll
+    if (sched::self() >= 0) sched::log("timer-armed");
+  }
+  return 0;
+}
+}
+
 // ------------------------------------------------------------------ user code
 static void runActs(const Prog& p);
+
+static void timerCallback(int k)
+{
+  sched::log("cb %d", k);
+  std::map<int, Prog>::const_iterator it = g_case->scripts.find(k);
+  if (it != g_case->scripts.end()) runActs(it->second);
+  sched::log("cbe %d", k);
+}
 
 static void taskBody(int t)
 {
@@ -250,6 +329,8 @@ static void runActs(const Prog& p)
     else if (a.op == "quit") { sched::log("call quit"); ++g_quit_calls; l->quit(); sched::log("ret quit"); }
     else if (a.op == "ev") { char b = static_cast<char>(a.arg); ssize_t n = ::write(g_pipe[1], &b, 1); (void)n; }
     else if (a.op == "pt") { sched::point("user"); }
+    else if (a.op == "ta") { sched::log("call ta %d", a.arg); l->runAfter(0.0, std::bind(timerCallback, a.arg)); sched::log("ret ta %d", a.arg); }
+    else if (a.op == "wx") { sched::wait_exit(g_child_idx); }
     else if (a.op == "start")
     {
       g_elt = new EventLoopThread(initCallback, "elt");
@@ -328,7 +409,17 @@ static void runEltCase(const CaseDesc& c)
   });
 }
 
-static void poolTask(int i) { sched::log("pooltask %d on T%d", i, sched::self()); }
+static void poolTask(int i) { sched::log("x %d", i); sched::log("pooltask %d on T%d", i, sched::self()); sched::log("xe %d", i); }
+
+static void poolInit(EventLoop* loop)
+{
+  // runs in every pool thread before its loop is published
+  g_pool_loops.push_back(loop);
+  g_pool_wake.push_back(loop->wakeupFd_);
+  g_pool_ev.push_back(0);
+  g_pool_alive.push_back(1);
+  sched::log("loop created wake=f%d qm=m%d", loop->wakeupFd_, sched::name_mutex(loop->mutex_.getPthreadMutex()));
+}
 
 static void runPoolCase(const CaseDesc& c)
 {
@@ -336,8 +427,17 @@ static void runPoolCase(const CaseDesc& c)
     EventLoop base;
     {
       EventLoopThreadPool pool(&base, "p");
+      g_pool = &pool;
       pool.setThreadNum(c.n);
-      pool.start();
+      pool.start(poolInit);
+      for (size_t i = 0; i < pool.threads_.size(); ++i)
+      {
+        EventLoopThread* t = pool.threads_[i].get();
+        sched::log("pool thread %zu latch=m%d,c%d elt=m%d,c%d", i, sched::name_mutex(t->thread_.latch_.mutex_.getPthreadMutex()),
+                   sched::name_cond(&t->thread_.latch_.condition_.pcond_), sched::name_mutex(t->mutex_.getPthreadMutex()),
+                   sched::name_cond(&t->cond_.pcond_));
+      }
+      sched::log("pool started");
       std::vector<EventLoop*> all = pool.getAllLoops();
       std::map<EventLoop*, int> idx;
       if (c.n == 0) idx[&base] = -1;
@@ -392,7 +492,10 @@ static void runPoolCase(const CaseDesc& c)
       if (c.n > 0)
         for (size_t i = 0; i < all.size(); ++i) all[i]->runInLoop(std::bind(poolTask, static_cast<int>(i)));
       sched::point("before_pool_destroy");
+      sched::log("pool destroying");
+      g_pool_dtor = true;
     }
+    g_pool = NULL;
     printf("pool destroyed\n");
   });
 }
@@ -424,7 +527,7 @@ static Prog parseActs(const std::vector<string>& w, size_t from)
     Act a;
     a.op = w[i++];
     a.arg = 0;
-    if ((a.op == "q" || a.op == "r" || a.op == "ev") && i < w.size()) a.arg = atoi(w[i++].c_str());
+    if ((a.op == "q" || a.op == "r" || a.op == "ev" || a.op == "ta") && i < w.size()) a.arg = atoi(w[i++].c_str());
     p.push_back(a);
   }
   return p;
